@@ -29,7 +29,8 @@ CONSTANTS
     TrainM,     \* numbers of training vectors
     TrainD,     \* dimensions of training vectors
     F16N,       \* numerators n of float16 inputs n/4096
-    RbN         \* value numerators of the vectors stored in an int8 index (read back + distance)
+    RbA,        \* AbsMax numerators of the int8 indexes
+    RbN         \* value numerators of the vectors stored in / queried against an int8 (cosine) index
 
 VARIABLE c
 vars == <<c>>
@@ -56,6 +57,32 @@ Quant(n, a) == IF n > a THEN 127 ELSE IF n < -a THEN -127 ELSE RHA(127 * n, a)
 \* the float32 evaluation of an exact tie may land on either neighbour
 QuantAllowed(n, a) == IF Abs(n) < a /\ Tie(127 * n, a) THEN {Quant(n, a), Quant(n, a) - Sgn(n)} ELSE {Quant(n, a)}
 Clamp(n, a) == IF n > a THEN a ELSE IF n < -a THEN -a ELSE n
+
+(* int8 exists only with the cosine metric (int8Funcs = {Cosine}), and a cosine index stores the UNIT vector:
+   hnsw.Add / AddBatch normalise for every precision, then quantise.  Stored component i of x (squared norm N,
+   numerators over den, AbsMax = a/den):  q_i = Quant(x_i / sqrt(N)),  i.e.
+        |q_i| = 127                                         if den^2 * x_i^2 > a^2 * N      (|n_i| > AbsMax: clipped)
+        |q_i| = the largest m with (2m-1) * a * sqrt(N) <= 254 * den * |x_i|                (round half away)
+   decided on integers by squaring: (2m-1)^2 * a^2 * N <= (254 * den * x_i)^2.  TLC integers are 32 bit: every
+   product is formed only where it fits (Fits).  A boundary closer than 1e-5 (relative, in the value) cannot be
+   told apart by the float32 evaluation of the code (normalise, divide, multiply): both neighbours are admissible. *)
+Fits(k, aN) == k <= 2000000000 \div aN
+NQmag(xi, N, a, den) ==
+    LET T2 == (254 * den * Abs(xi)) * (254 * den * Abs(xi))
+        aN == a * a * N
+        RECURSIVE Up(_)
+        Up(m) == IF m >= 127 THEN 127
+                 ELSE IF Fits((2 * m + 1) * (2 * m + 1), aN) /\ (2 * m + 1) * (2 * m + 1) * aN <= T2 THEN Up(m + 1) ELSE m
+    IN  IF N = 0 THEN 0 ELSE IF den * den * xi * xi > aN THEN 127 ELSE Up(0)
+NQAllowed(xi, N, a, den) ==
+    LET T2  == (254 * den * Abs(xi)) * (254 * den * Abs(xi))
+        aN  == a * a * N
+        m   == NQmag(xi, N, a, den)
+        eps == T2 \div 50000
+        clipped == N = 0 \/ den * den * xi * xi > aN
+        lo  == ~clipped /\ m >= 1 /\ T2 - (2 * m - 1) * (2 * m - 1) * aN <= eps
+        hi  == ~clipped /\ m <= 126 /\ Fits((2 * m + 1) * (2 * m + 1), aN) /\ (2 * m + 1) * (2 * m + 1) * aN - T2 <= eps
+    IN  {Sgn(xi) * k : k \in {m} \cup (IF lo THEN {m - 1} ELSE {}) \cup (IF hi THEN {m + 1} ELSE {})}
 
 (* -------------------------------- Train -------------------------------- *)
 \* m vectors of dimension d; all components b except k outliers o (|o| > b), placed in component 1 of the
@@ -96,9 +123,9 @@ QuantCases == {[Blank EXCEPT !.k = "quant", !.x = x, !.a = t[1], !.den = t[2]] :
 TrainCases == {[Blank EXCEPT !.k = "train", !.m = t[1], !.d = t[2], !.b = t[3], !.o = t[4], !.ko = t[5], !.pos = t[6]] :
                  t \in {u \in TrainM \X TrainD \X {1, 2} \X {3, -3} \X (0..3) \X {"front", "back"} : u[5] <= u[1]}}
 F16Cases == {[Blank EXCEPT !.k = "f16", !.x = x, !.y = y] : <<x, y>> \in Vecs(2, F16N) \X Vecs(2, F16N)}
-\* read back and distance through an int8 index trained to AbsMax = a/den
+\* x stored in (read back) and y queried against (distance) a cosine/int8 index trained to AbsMax = a/den
 Rb8Cases == {[Blank EXCEPT !.k = "rb8", !.x = x, !.y = y, !.a = t[1], !.den = t[2]] :
-                 <<x, y, t>> \in Vecs(2, RbN) \X Vecs(2, RbN) \X (QA \X QDen)}
+                 <<x, y, t>> \in Vecs(2, RbN) \X Vecs(2, RbN) \X (RbA \X QDen)}
 
 Cases == (IF "pair" \in Kinds THEN PairCases ELSE {}) \cup (IF "mismatch" \in Kinds THEN MisCases ELSE {})
          \cup (IF "quant" \in Kinds THEN QuantCases ELSE {}) \cup (IF "train" \in Kinds THEN TrainCases ELSE {})
@@ -119,9 +146,11 @@ Expect ==
             sqe |-> SqE([i \in 1..Len(c.x) |-> RNE(c.x[i])], [i \in 1..Len(c.y) |-> RNE(c.y[i])]),
             quantum |-> [i \in 1..Len(c.x) |-> Quantum(c.x[i])]]
       [] c.k = "rb8" ->
-           [qx |-> QVec(c.x, c.a), qy |-> QVec(c.y, c.a), dot |-> Dot(QVec(c.x, c.a), QVec(c.y, c.a)),
-            nx |-> N2(QVec(c.x, c.a)), ny |-> N2(QVec(c.y, c.a)),
-            exact |-> \A i \in 1..Len(c.x) : ~Tie(127 * c.x[i], c.a) /\ ~Tie(127 * c.y[i], c.a)]
+           \* stored: admissible integers of the quantised UNIT vector of x.  Query of ComputeDistanceToVector: the RAW
+           \* vector y goes through Quantizer.Quantize (only hnsw search normalises its query), qy is exact unless a tie
+           [allowed |-> [i \in 1..Len(c.x) |-> NQAllowed(c.x[i], N2(c.x), c.a, c.den)],
+            qy |-> QVec(c.y, c.a), ny |-> N2(QVec(c.y, c.a)),
+            exacty |-> \A i \in 1..Len(c.y) : Abs(c.y[i]) >= c.a \/ ~Tie(127 * c.y[i], c.a)]
 
 (* ------------------------------ theorems ------------------------------- *)
 \* every kernel is symmetric, non-negative where it is a distance, zero between a vector and itself
@@ -145,6 +174,16 @@ Inv_Quant == c.k = "quant" =>
         /\ (Abs(c.x[i]) >= c.a => q = 127 * Sgn(c.x[i]))
         /\ 2 * Abs(q * c.a - 127 * Clamp(c.x[i], c.a)) <= c.a
         /\ \A j \in 1..Len(c.x) : c.x[i] <= c.x[j] => q <= Quant(c.x[j], c.a)
+
+\* the stored unit vector: clipped beyond the trained range, never wraps, keeps sign and order of the components
+Inv_Rb8 == c.k = "rb8" =>
+    \A i \in 1..Len(c.x) :
+        LET m == NQmag(c.x[i], N2(c.x), c.a, c.den) IN
+        /\ m \in 0..127
+        /\ NQAllowed(c.x[i], N2(c.x), c.a, c.den) \subseteq -127..127
+        /\ \A q \in NQAllowed(c.x[i], N2(c.x), c.a, c.den) : Sgn(q) \in {0, Sgn(c.x[i])}
+        /\ (N2(c.x) > 0 /\ c.den * c.den * c.x[i] * c.x[i] >= c.a * c.a * N2(c.x) => m = 127)
+        /\ \A j \in 1..Len(c.x) : Abs(c.x[i]) <= Abs(c.x[j]) => m <= NQmag(c.x[j], N2(c.x), c.a, c.den)
 
 \* float16: one rounding step
 Inv_F16 == c.k = "f16" =>
